@@ -1,6 +1,7 @@
 package main
 
 import (
+	"errors"
 	"bytes"
 	"fmt"
 	"io"
@@ -258,6 +259,29 @@ func firstDiff(a, b string) int {
 type countingWriter struct{ buf bytes.Buffer }
 
 func (w *countingWriter) Write(p []byte) (int, error) { return w.buf.Write(p) }
+
+// limitWriter accepts budget bytes in all; the call that crosses the budget is a short write with an error, and
+// every later call fails outright.
+type limitWriter struct {
+	budget, got int
+	failed      bool
+}
+
+var errWriteFault = errors.New("verif: injected write failure")
+
+func (w *limitWriter) Write(p []byte) (int, error) {
+	if w.failed {
+		return 0, errWriteFault
+	}
+	if w.got+len(p) > w.budget {
+		n := w.budget - w.got
+		w.got += n
+		w.failed = true
+		return n, errWriteFault
+	}
+	w.got += len(p)
+	return len(p), nil
+}
 
 // chunkReader delivers data in irregular small chunks and records whether EOF was delivered.
 type chunkReader struct {
